@@ -5,6 +5,8 @@ import (
 	"encoding/hex"
 	"encoding/json"
 	"fmt"
+	"github.com/protolambda/zrnt/eth2/beacon/capella"
+	"github.com/protolambda/zrnt/eth2/beacon/common"
 	"runtime/debug"
 	"sort"
 
@@ -396,6 +398,10 @@ func runC03(r *mc.Report, e *Env) {
 		"era_boundary_blocks": c03Fork,
 	})
 	defer debug.SetGCPercent(debug.SetGCPercent(400)) // many short-lived proofs over a small live heap
+	if e.Of <= 1 || e.Shard == e.Of-1 {
+		c03Oracle(r, e)
+		c03DefaultAccumulators(r)
+	}
 	unit := 0
 	for _, wd := range c03Worlds {
 		w := wd.build()
@@ -415,6 +421,20 @@ func runC03(r *mc.Report, e *Env) {
 }
 
 func replayC03(r *mc.Report, e *Env, raw json.RawMessage) {
+	var oc c03OracleCase
+	if json.Unmarshal(raw, &oc) == nil && oc.Part == "growing-summaries" {
+		w := c03PostWorld()
+		var all capella.HistoricalSummaries
+		for _, b := range w.sums {
+			all = append(all, capella.HistoricalSummary{BlockSummaryRoot: common.Root(b.entry()), StateSummaryRoot: common.Root(b.state)})
+		}
+		fmt.Println("outcome:", c03OracleRun(r, w, all, oc.Steps, true))
+		return
+	}
+	if oc.Part == "default-accumulators" {
+		c03DefaultAccumulators(r)
+		return
+	}
 	var c c03Case
 	if err := json.Unmarshal(raw, &c); err != nil {
 		panic(err)
